@@ -33,6 +33,7 @@ type vfGateEnv struct {
 	mu         sync.Mutex
 	pend       map[string]func()
 	pendStream map[string]int
+	rets       sync.Map // request id -> returned
 }
 
 // vfGateObserver is a StreamObserver whose callbacks are also gate points (they run inside
@@ -121,6 +122,9 @@ func vfNewGateEnv(kind string, proto int, coalesce bool) (*vfGateEnv, error) {
 	e.sc.Bind(conn.w)
 	dc := d.DriverConns[desc.Addr]
 	e.mc = dc[len(dc)-1]
+	if tmc, ok := conn.conn.(*vfMemConn); ok {
+		e.mc = tmc
+	}
 	e.connID = e.tr.ObjID(conn)
 	e.wireBase = len(e.mc.Written())
 	e.proto = proto
@@ -188,8 +192,19 @@ func (e *vfGateEnv) start(fate string, cancellable bool) (int, string, context.C
 			return
 		}
 		e.tr.Emit("ret", "req", id, "conn", e.connID, "outcome", vfConnOutcome(xerr, echoed, tok), "echo", echoed, "tok", tok)
+		e.rets.Store(id, true)
 	}()
 	return id, tok, cancel
+}
+
+// awaitRet waits until request id has returned to its caller.
+func (e *vfGateEnv) awaitRet(id int, d time.Duration) bool {
+	for end := time.Now().Add(d); time.Now().Before(end); time.Sleep(200 * time.Microsecond) {
+		if _, ok := e.rets.Load(id); ok {
+			return true
+		}
+	}
+	return false
 }
 
 func (e *vfGateEnv) closeConn(label string) {
@@ -398,6 +413,65 @@ var vfGateScenarios = map[string]func(e *vfGateEnv) string{
 		gf.Release()
 		return ""
 	},
+	// C06 / C01: a frame arrives on a stream id that is handed out but not yet registered (the window between
+	// GetStream and addCall): the receiver must discard it and must not touch the id, which its holder
+	// keeps; every other id is taken, so a wrongly freed id would be handed to the next request at once
+	"frame_before_addcall": func(e *vfGateEnv) string {
+		if e.proto != 2 {
+			return ""
+		}
+		capacity := e.conn.streams.NumStreams - 1
+		for i := 0; i < capacity-1; i++ {
+			e.start("never", false)
+		}
+		for i := 0; i < 3000 && e.conn.AvailableStreams() > 1; i++ {
+			time.Sleep(time.Millisecond)
+		}
+		if e.conn.AvailableStreams() != 1 {
+			return "could not occupy all ids but one"
+		}
+		idB := int(atomic.LoadInt64(&e.nextReq)) + 1
+		gs := e.sc.gates.Arm("x_stream", idB)
+		e.start("never", false)
+		if !gs.AwaitReached(vfGateWait) {
+			return "x_stream not reached"
+		}
+		st := -1
+		for _, ev := range e.tr.Events() {
+			if ev["ev"] == "x_stream" && ev["req"] == idB {
+				st, _ = ev["stream"].(int)
+			}
+		}
+		var nc *vfNodeConn
+		for _, c := range e.node.Conns() {
+			if c.Conn.in == e.mc.out {
+				nc = c
+			}
+		}
+		if st <= 0 || nc == nil {
+			gs.Release()
+			return "stream id of the gated request / node end not found"
+		}
+		e.tr.Emit("n_unsol", "stream", st)
+		nc.Send(vfEncodeFrame(byte(e.proto), 0, st, vfOpResult, vfSetKeyspaceBody("unsol_gate")))
+		seen := false
+		for i := 0; i < 3000 && !seen; i++ {
+			for _, ev := range e.tr.Events() {
+				if ev["ev"] == "r_discard" && ev["conn"] == e.connID {
+					seen = true
+				}
+			}
+			time.Sleep(time.Millisecond)
+		}
+		gs.Release()
+		if !seen {
+			return "the receiver did not report the unmatched frame"
+		}
+		time.Sleep(5 * time.Millisecond)
+		idC, _, _ := e.start("prompt", false) // every id is held: it must be refused for lack of streams
+		e.awaitRet(idC, 2*time.Second)
+		return ""
+	},
 	// C07 / C01: a request is cancelled while its frame is queued in the write coalescer; whatever the
 	// writer reports must match the byte stream, and the stream id must not be reused while an answer
 	// to that frame can still arrive
@@ -419,6 +493,37 @@ var vfGateScenarios = map[string]func(e *vfGateEnv) string{
 		for i := 0; i < 6; i++ {
 			e.start("prompt", false)
 			time.Sleep(time.Millisecond)
+		}
+		return ""
+	},
+	// C07: "a request whose context ended before writing began leaves no bytes": a write is stuck in the
+	// socket (the peer stopped reading in the middle of a frame), a second request waits for the writer,
+	// its context ends during that wait; only after it has returned (or 1.5 s) does the socket drain
+	"cancel_while_writer_blocked": func(e *vfGateEnv) string {
+		hold, held := make(chan struct{}), make(chan struct{})
+		e.mc.SetFault(&vfWriteFault{FailAtByte: -1, StallAtByte: -1, HoldAtByte: int64(len(e.mc.Written())) + 5, Hold: hold, Held: held})
+		e.start("prompt", false)
+		select {
+		case <-held:
+		case <-time.After(vfGateWait):
+			close(hold)
+			return "the first write did not reach the socket"
+		}
+		e.tr.Emit("env_held", "conn", e.connID)
+		id, _, cancel := e.start("prompt", true)
+		gw := e.sc.gates.Arm("x_wbegin", id)
+		if !gw.AwaitReached(vfGateWait) {
+			close(hold)
+			return "second request did not reach its write"
+		}
+		gw.Release()
+		time.Sleep(3 * time.Millisecond) // it now waits for the writer
+		cancel()
+		e.awaitRet(id, 1500*time.Millisecond)
+		e.tr.Emit("env_unhold", "conn", e.connID)
+		close(hold)
+		for i := 0; i < 3; i++ {
+			e.start("prompt", false)
 		}
 		return ""
 	},
@@ -449,13 +554,13 @@ func TestVfConnGates(t *testing.T) {
 	if vfOutDir() == "" {
 		t.Skip("VF_OUT not set")
 	}
-	names := []string{"closer_before_select", "closer_vs_giveup", "recv_vs_giveup", "late_answer_after_timeout", "two_closers", "write_after_partial", "cancel_while_queued", "undo_window", "handshake_faults"}
+	names := []string{"closer_before_select", "closer_vs_giveup", "recv_vs_giveup", "late_answer_after_timeout", "two_closers", "write_after_partial", "cancel_while_queued", "cancel_while_writer_blocked", "undo_window", "frame_before_addcall", "handshake_faults"}
 	k := 0
 	var inconclusive []string
 	for _, name := range names {
 		for _, proto := range []int{2, 4} {
 			for _, coalesce := range []bool{false, true} {
-				if name != "write_after_partial" && name != "cancel_while_queued" && coalesce && proto == 2 {
+				if name != "write_after_partial" && name != "cancel_while_queued" && name != "cancel_while_writer_blocked" && coalesce && proto == 2 {
 					continue
 				}
 				e, err := vfNewGateEnv("gate:"+name, proto, coalesce)
